@@ -203,13 +203,16 @@ var bigSizesThorough = append(append([]int{}, bigSizes...), 511, 512, 513, 700, 
 var bigStrides = []int{0, 1, -1, 2, 5, 7, 11, 13, 97, -3, 7919}
 var bigVals = []int{1, 2, 3, 7, 7, 30, 300, 5000}
 
-// bigKindTable: one op in 26 is a runtime.GC() in the middle of the history.
-var bigKindTable = append(append([]int{}, kindTable...), opGC)
+// bigKindTable: two ops in 27 are a runtime.GC() in the middle of the history (used by one case in six: a collection
+// costs as much as thousands of calls, far more on a busy machine).
+var bigKindTable = append(append([]int{}, kindTable...), opGC, opGC)
 
 // 0 = the GOMAXPROCS of the unit's process (4, set in plan.json)
 var bigProcs = []int{0, 0, 0, 0, 0, 0, 1, 2, 3, 5, 6, 7, 12, 16}
 
-var bigOpGen = opGenWith(bigKindTable, 300, []int{0, 0, 0, 0, 0, 0, 0, 0, 1, 2, 3, 7, 16, 33, 70}, []int{0, 0, 1, -1, 3, 7, 13})
+var bigOpGenGC = opGenWith(bigKindTable, 300, []int{0, 0, 0, 0, 0, 0, 0, 0, 1, 2, 3, 7, 16, 33, 70}, []int{0, 0, 1, -1, 3, 7, 13})
+
+var bigOpGen = opGenWith(kindTable, 300, []int{0, 0, 0, 0, 0, 0, 0, 0, 1, 2, 3, 7, 16, 33, 70}, []int{0, 0, 1, -1, 3, 7, 13})
 
 func genBig(t *rapid.T, sizes []int) Case {
 	c := Case{Order: rapid.SampledFrom(allOrders).Draw(t, "order"), Vals: rapid.SampledFrom(bigVals).Draw(t, "vals")}
@@ -222,7 +225,11 @@ func genBig(t *rapid.T, sizes []int) Case {
 	})
 	c.Bulk = rapid.SliceOfN(fill, 1, 3).Draw(t, "bulk")
 	c.Spare = rapid.IntRange(0, 3).Draw(t, "spare")
-	c.Ops = pbt.OpsOf(t, bigOpGen, []int{0, 3, 8, 14}, "ops")
+	og := bigOpGen
+	if rapid.IntRange(0, 5).Draw(t, "withgc") == 5 {
+		og = bigOpGenGC
+	}
+	c.Ops = pbt.OpsOf(t, og, []int{0, 3, 8, 14}, "ops")
 	if c.Ops == nil {
 		c.Ops = []Op{}
 	}
@@ -234,7 +241,7 @@ func genBig(t *rapid.T, sizes []int) Case {
 var specBigRand = pbt.Register(&pbt.Spec[Case]{
 	Property: "C07", Name: "C07.bigrand",
 	Rule: "rapid: BIG random histories: all 15 orders/element types; initial input = 0..6 explicit values plus 1..3 arithmetic runs whose lengths are drawn from sizes around 20, 32, 48, 64, 128, 256 (thorough: also 512, 1024), strides 0, +-1, small and large primes, Vals in {1,2,3,7,30,300,5000}; " +
-		"0..34 ops (raw arguments 0..300; one op in 26 is a runtime.GC(), once or twice), each repeated 1..71 times (half of them once) with strides, the list run 1..9 times; GOMAXPROCS 4 (process default, 6 cases in 14) or 1, 2, 3, 5, 6, 7, 12, 16. " + rule + ruleNT,
+		"0..34 ops (raw arguments 0..300; in one case of six two ops in 27 are a runtime.GC(), once or twice), each repeated 1..71 times (half of them once) with strides, the list run 1..9 times; GOMAXPROCS 4 (process default, 6 cases in 14) or 1, 2, 3, 5, 6, 7, 12, 16. " + rule + ruleNT,
 	Gen: func(t *rapid.T) Case {
 		if pbt.GetEnv().Tier == "thorough" {
 			return genBig(t, bigSizesThorough)
